@@ -14,7 +14,13 @@ func vPickType() uint16 {
 	if only != 0 {
 		return uint16(only)
 	}
-	t := vTypesSimple[vChoice("type", len(vTypesSimple))]
+	n := len(vTypesSimple)
+	if vParam("gen.nosvcbapl", 0) == 1 {
+		// stated bound: SVCB, HTTPS and APL (the last three entries) are left to harnesses of their own where the
+		// text round trip through the zone parser makes the full battery too expensive for them
+		n -= 3
+	}
+	t := vTypesSimple[vChoice("type", n)]
 	if vParam("gen.skipslow", 0) == 1 && (t == TypeNSEC3 || t == TypeHIP) {
 		// stated bound: these two types make the two-record comparison queries too hard for the solver
 		vAssume(false)
